@@ -132,4 +132,10 @@ example : ∀ r ∈ [exRec], noChar '/' r.cat := by decide
 example : Matches (fun _ _ => true) "Op" [] exRec := by
   constructor <;> decide
 
+/-- **The day enumeration of the code as it stands** (`prefixDaysSrc` is built from the atoms `dayCountKind`, `dayCountPlus`
+that are regenerated from `_get_id_prefixes` on every run) is the one the theorems above are about: calendar dates, both
+ends included. -/
+theorem C16_days_as_in_source (s e : Nat) : prefixDaysSrc s e = prefixDays s e := by
+  simp [prefixDaysSrc, prefixDays, PlaybackModel.Source.dayCountKind, PlaybackModel.Source.dayCountPlus]
+
 end Properties.C16
